@@ -15,9 +15,17 @@ import collections, contextlib, copy, glob, hashlib, inspect, io, json, math, os
 import common
 from common import drv_batch, drv_ok
 import c03gen
+import c03bank
+import re, types
 
 LANGS = {"c": (".c", ".h", ".i"), "go": (".go",), "java": (".java",), "javascript": (".js",), "php": (".php",),
-         "python": (".py",), "typescript": (".ts",)}
+         "python": (".py",), "typescript": (".ts",),
+         # grammar present, no program generator: corpus + snippets + mutants only
+         "llvm": (".ll",), "ruby": (".rb",), "smali": (".smali",)}
+CORE_LANGS = ("c", "go", "java", "javascript", "php", "python", "typescript")
+EXT1 = {"c": ".c", "go": ".go", "java": ".java", "javascript": ".js", "php": ".php", "python": ".py", "typescript": ".ts",
+        "llvm": ".ll", "ruby": ".rb", "smali": ".smali"}
+HANDLER_RE = re.compile(r"^(check_\w*handler|obtain_\w*handler)$")
 STRIP_KEYS = ("start_row", "start_col", "end_row", "end_col", "unit_id")
 BODY_KEYS = ["parameters", "fields", "methods", "nested", "enum_constants", "annotation_type_elements",
              "static_init", "init", "member_methods", "finally_clause"]
@@ -81,7 +89,12 @@ def _str_ok(s, in_list):
     return True
 
 
-def enc_tree(t, in_list=False):
+MAX_TREE_DEPTH = 240          # JSON nesting (about 60 nested blocks); deeper trees are pickled/parsed recursively
+
+
+def enc_tree(t, in_list=False, depth=0):
+    if depth > MAX_TREE_DEPTH:
+        raise OutOfFragment("too deep")
     if t is None:
         return None
     if isinstance(t, bool):
@@ -98,13 +111,13 @@ def enc_tree(t, in_list=False):
         return t
     if isinstance(t, list):
         gir = bool(t) and isinstance(t[0], dict) and bool(t[0])
-        return [enc_tree(x, in_list or not gir) for x in t]
+        return [enc_tree(x, in_list or not gir, depth + 1) for x in t]
     if isinstance(t, dict):
         out = []
         for k, v in t.items():
             if not isinstance(k, str) or not _str_ok(k, in_list):
                 raise OutOfFragment("non-str key")
-            out.append([k, enc_tree(v, in_list)])
+            out.append([k, enc_tree(v, in_list, depth + 1)])
         return {"o": out}
     raise OutOfFragment(type(t).__name__)
 
@@ -349,7 +362,7 @@ def assert_lian_from_repo():
 # --------------------------------------------------------------------------------------------------
 # tie (b): the real lang phase, in-process, in worker processes
 # --------------------------------------------------------------------------------------------------
-CAP = {"units": [], "flat": [], "save_fail": [], "raised": []}
+CAP = {"units": [], "flat": [], "save_fail": [], "raised": [], "errors": [], "hits": set(), "seen": set()}
 _WRAPPED = [False]
 _SCRATCH = [None]
 
@@ -378,15 +391,48 @@ def install_wrappers():
     orig_parse_gir = common_parser.Parser.parse_gir
 
     def parse_gir(self, node, statements):
+        census(node, CAP["seen"])
         try:
             return orig_parse_gir(self, node, statements)
         except Exception as e:
             CAP["raised"].append(type(e).__name__)
             raise
 
+    from lian.util import util as lian_util
+    orig_error = lian_util.error
+
+    def error(*msg):
+        CAP["errors"].append(" ".join(str(m) for m in msg)[:300])
+        return orig_error(*msg)
+    lian_util.error = error
+
+    # which handler of the frontend's dispatch tables is looked up with success (= about to be run)
+    from lian.config import lang_config
+    for lc in lang_config.LANG_TABLE:
+        for name in dir(lc.parser):
+            if HANDLER_RE.match(name):
+                orig = getattr(lc.parser, name)
+                if getattr(orig, "__wrapped__", None) is not None:
+                    continue
+
+                def mk(orig):
+                    def w(self, node, *a, **k):
+                        r = orig(self, node, *a, **k)
+                        if r is not None:
+                            try:
+                                CAP["hits"].add(node.type)
+                            except Exception:
+                                pass
+                        return r
+                    w.__wrapped__ = orig
+                    return w
+                setattr(lc.parser, name, mk(orig))
+
     def flatten(self, stmts):
         rec = {"n": self.node_id}
+        lim = sys.getrecursionlimit()
         try:
+            sys.setrecursionlimit(max(lim, 20000))      # only for the harness's own copy of the tree
             rec["tree"] = enc_tree(stmts)
         except OutOfFragment as e:
             rec["tree"] = None
@@ -394,6 +440,8 @@ def install_wrappers():
         except RecursionError:
             rec["tree"] = None
             rec["oof"] = "too deep"
+        finally:
+            sys.setrecursionlimit(lim)
         CAP["flat"].append(rec)
         return orig_flatten(self, stmts)
 
@@ -401,10 +449,17 @@ def install_wrappers():
         k = len(CAP["flat"])
         rec = {"uid": int(unit_info.module_id), "n": int(current_node_id), "path": os.path.basename(str(file_unit)), "flat": None}
         CAP["units"].append(rec)
-        kr = len(CAP["raised"])
+        kr, ke = len(CAP["raised"]), len(CAP["errors"])
         res = orig_deal(self, current_node_id, unit_info, file_unit, lang_table)
         if len(CAP["raised"]) > kr:
             rec["raised"] = CAP["raised"][kr]
+            rec["raised_where"] = "frontend"
+        for m in CAP["errors"][ke:]:
+            mm = re.match(r"Failed to post-process GIR \((\w+):", m)
+            if mm:
+                rec["raised"] = mm.group(1)
+                rec["raised_where"] = "passes"
+                rec["raised_msg"] = m[:200]
         if len(CAP["flat"]) > k:
             rec["flat"] = CAP["flat"][k]
         rec["n_out"] = int(res[0])
@@ -423,13 +478,60 @@ def install_wrappers():
     data_model.DataModel.save = save
 
 
+def census(node, seen, cap=40000):
+    """named node types of a tree-sitter tree (iterative walk)"""
+    try:
+        cur = node.walk()
+        n = 0
+        while n < cap:
+            n += 1
+            if cur.node.is_named:
+                seen.add(cur.node.type)
+            if cur.goto_first_child():
+                continue
+            while not cur.goto_next_sibling():
+                if not cur.goto_parent():
+                    return
+    except Exception:
+        return
+
+
+def handler_universe(lang):
+    """node types the live frontend of `lang` has a handler for, per dispatch table"""
+    from lian.config import lang_config
+    lc = next((l for l in lang_config.LANG_TABLE if l.name == lang), None)
+    if lc is None:
+        return {}
+    tables = {}
+    try:
+        opts = types.SimpleNamespace(debug=False, print_stmts=False, strict_parse_mode=False, quiet=True)
+        ui = types.SimpleNamespace(original_path="", unit_path="", module_id=0, lang=lang, unit_id=0)
+        inst = lc.parser(opts, ui)
+        for k, v in vars(inst).items():
+            if k.endswith("_MAP") and isinstance(v, dict) and v and all(isinstance(x, str) for x in v) \
+                    and all(callable(x) for x in v.values()):
+                tables[k] = sorted(v)
+    except Exception as e:
+        tables["<instantiation failed: %s>" % type(e).__name__] = []
+    for name in dir(lc.parser):
+        if HANDLER_RE.match(name):
+            f = getattr(lc.parser, name)
+            f = getattr(f, "__wrapped__", f)
+            code = getattr(f, "__code__", None)
+            if code is None:
+                continue
+            keys = sorted({c for c in code.co_consts if isinstance(c, str) and re.match(r"^[a-z_][a-z0-9_]*$", c)})
+            if keys:
+                tables[name] = keys
+    return tables
+
+
 def worker_init(repo, scratch):
     for v in ("OMP_NUM_THREADS", "OPENBLAS_NUM_THREADS", "MKL_NUM_THREADS", "ARROW_IO_THREADS", "NUMEXPR_NUM_THREADS"):
         os.environ[v] = "1"
     os.environ["LIAN_REPO"] = repo
     common.REPO = repo
     _SCRATCH[0] = scratch
-    sys.setrecursionlimit(3000)
     install_wrappers()
     assert_lian_from_repo()
 
@@ -470,7 +572,8 @@ def run_case(case):
     ws = os.path.join(base, "ws")
     shutil.rmtree(os.path.join(ws, "lian_workspace", "frontend"), ignore_errors=True)   # never read a stale bundle
     target = os.path.join(indir, case["files"][0][0]) if len(case["files"]) == 1 else indir
-    CAP["units"], CAP["flat"], CAP["save_fail"], CAP["raised"] = [], [], [], []
+    CAP["units"], CAP["flat"], CAP["save_fail"], CAP["raised"], CAP["errors"] = [], [], [], [], []
+    CAP["hits"], CAP["seen"] = set(), set()
     res = {"cid": case["cid"], "lang": case["lang"], "status": "ok", "site": None, "exc": None, "msg": ""}
     argv = sys.argv
     sys.argv = ["lian", "lang", "-l", case["lang"], "-w", ws, "-f", "-q", target]
@@ -499,10 +602,13 @@ def run_case(case):
             sys.argv = argv
     res["time"] = round(time.time() - t0, 3)
     res["stderr"] = se.getvalue()[-400:]
+    res["stdout"] = so.getvalue()[-600:]
     if res["status"] == "exit":
         res["msg"] += ": " + " ".join(l for l in se.getvalue().split("\n") if "[ERROR]" in l)[-200:]
     res["units"] = CAP["units"]
     res["save_fail"] = CAP["save_fail"]
+    res["hits"] = sorted(CAP["hits"])
+    res["seen"] = sorted(CAP["seen"])
     try:
         res["bundle"], res["nbundles"] = read_bundles(ws)
     except OutOfFragment as e:
@@ -529,60 +635,83 @@ def corpus_files(lang):
     return out
 
 
+def _safe(name):
+    return re.sub(r"[^A-Za-z0-9_.]", "_", name)[-60:]
+
+
 def build_cases(ctx, sizes):
-    """returns list of cases (dicts). Deterministic in ctx.rng."""
+    """returns list of cases (dicts). Deterministic in ctx.rng.
+
+    Every input is one file; files are PACKED into multi-file projects (`pack` files per real run) because
+    one `lang` run costs ~0.3 s of workspace handling whatever the number of units.  Large files run alone.
+    A failure names the unit (file) it belongs to, and shrinking starts by dropping the other files."""
     rng = ctx.rng
     cases = []
     stats = collections.Counter()
     for lang in sorted(LANGS):
+        ext = EXT1[lang]
+        core = lang in CORE_LANGS
         files = corpus_files(lang)
+        items = []         # (kind, origin, name, bytes)
         pool = []          # (name, bytes) usable as mutation seeds
-        chosen = files["repo"] if sizes["corpus"] is None else rng.sample(files["repo"], min(sizes["corpus"], len(files["repo"])))
+        repo_files = files["repo"]
+        if sizes["corpus_frac"] < 1.0 and repo_files:
+            repo_files = sorted(rng.sample(repo_files, max(1, int(len(repo_files) * sizes["corpus_frac"]))))
         real = rng.sample(files["real"], min(sizes["real"], len(files["real"])))
-        for p in chosen + real:
+        for p in repo_files + real:
             try:
                 data = open(p, "rb").read()
             except OSError:
                 continue
             if len(data) > 200_000:
                 continue
-            name = os.path.basename(p)
-            cases.append({"cid": f"{lang}/corpus/{os.path.relpath(p, common.REPO)}", "lang": lang, "files": [[name, data]],
-                          "kind": "corpus", "timeout": sizes["timeout"]})
-            stats[lang + ":corpus"] += 1
+            items.append(("corpus", os.path.relpath(p, common.REPO), os.path.basename(p), data))
             if len(data) < 20_000:
-                pool.append((name, data))
+                pool.append((os.path.basename(p), data))
         gens = []
-        for i in range(sizes["generated"]):
-            src = c03gen.gen_program_source(rng, lang).encode()
-            name = f"gen{i}{c03gen.LANG_EXT[lang]}"
-            gens.append((name, src))
-            cases.append({"cid": f"{lang}/generated/{i}", "lang": lang, "files": [[name, src]], "kind": "generated",
-                          "timeout": sizes["timeout"]})
-            stats[lang + ":generated"] += 1
-        seeds = pool + gens
-        for i in range(sizes["mutants"]):
+        if core:
+            for i in range(sizes["generated"]):
+                src = c03gen.gen_program_source(rng, lang).encode()
+                gens.append((f"gen{i}{ext}", src))
+                items.append(("generated", str(i), f"gen{i}{ext}", src))
+        bank = c03bank.items(lang, rng, ctx.tier)
+        for kind, nm, src in bank:
+            items.append((kind, nm, nm + ext, src.encode()))
+        snippets = [(nm + ext, src.encode()) for kind, nm, src in bank if kind == "snippet"]
+        small_bank = [(nm + ext, src.encode()) for kind, nm, src in bank if kind != "snippet" and len(src) < 3000]
+        seeds = pool + gens + snippets * 3 + small_bank[:200]
+        nm_mut = sizes["mutants"] if core else max(10, sizes["mutants"] // 3)
+        for i in range(nm_mut):
             if not seeds:
                 break
             name, data = seeds[rng.randrange(len(seeds))]
             mdata, kinds = c03gen.mutate(rng, data)
-            cases.append({"cid": f"{lang}/mutant/{i}/{name}", "lang": lang, "files": [[name, mdata]], "kind": "mutant",
-                          "edits": kinds, "timeout": sizes["timeout"]})
-            stats[lang + ":mutant"] += 1
-        # multi-file projects: distinct file names, some mutated
-        for i in range(sizes["projects"]):
-            k = rng.randint(2, sizes["project_files"])
-            picks = [seeds[rng.randrange(len(seeds))] for _ in range(k)] if seeds else []
-            fl = []
-            for j, (name, data) in enumerate(picks):
-                if rng.random() < 0.25:
-                    data, _ = c03gen.mutate(rng, data)
-                sub = "" if rng.random() < 0.6 else f"d{j % 3}/"
-                fl.append([f"{sub}p{j}_{name}", data])
-            if fl:
-                cases.append({"cid": f"{lang}/project/{i}", "lang": lang, "files": fl, "kind": "project",
-                              "timeout": sizes["timeout"] * 3})
-                stats[lang + ":project"] += 1
+            items.append(("mutant", f"{i}/{name}", name, mdata))
+        for kind, _, _, _ in items:
+            stats[f"{lang}:{kind}"] += 1
+        # ---- pack
+        def alone(it):
+            return len(it[3]) > 30_000 or it[0] == "stress" or "DeepStringConcat" in it[2]
+        big = [it for it in items if alone(it)]
+        small = [it for it in items if not alone(it)]
+        rng.shuffle(small)
+        for it in big:
+            cases.append({"cid": f"{lang}/{it[0]}/{it[1]}", "lang": lang, "files": [[_safe(it[2]), it[3]]], "kind": it[0],
+                          "origins": {_safe(it[2]): f"{it[0]}:{it[1]}"}, "timeout": sizes["timeout"]})
+        k = sizes["pack"]
+        for ci in range(0, len(small), k):
+            chunk = small[ci:ci + k]
+            fl, origins = [], {}
+            for j, it in enumerate(chunk):
+                sub = "" if j % 4 else f"d{j % 3}/"
+                fname = f"{sub}k{j:02d}_{_safe(it[2])}"
+                if not fname.endswith(LANGS[lang]):
+                    fname += ext
+                fl.append([fname, it[3]])
+                origins[os.path.basename(fname)] = f"{it[0]}:{it[1]}"
+            cases.append({"cid": f"{lang}/pack/{ci // k}", "lang": lang, "files": fl, "kind": "pack", "origins": origins,
+                          "timeout": sizes["timeout"] * 4})
+            stats[lang + ":packs"] += 1
     return cases, stats
 
 
@@ -602,6 +731,12 @@ def match_known(ctx_findings, f):
         if f["lang"] == "php" and chains and all("namespace_decl.body" in c for c in chains):
             fid = "C03/php-namespace-body-outside-method"
             return fid if fid in open_ids else None
+        if f["lang"] == "typescript" and chains and all("module_decl.body" in c for c in chains):
+            fid = "C03/ts-ambient-module-body-outside-method"
+            return fid if fid in open_ids else None
+        if f["lang"] == "ruby" and chains and all("namespace_decl.body" in c for c in chains):
+            fid = "C03/ruby-module-body-outside-method"
+            return fid if fid in open_ids else None
         if f["lang"] == "java" and chains and all(c and c[-1] == "annotation_type_decl.annotation_type_elements" for c in chains):
             fid = "C03/java-annotation-element-default-outside-method"
             return fid if fid in open_ids else None
@@ -611,6 +746,10 @@ def match_known(ctx_findings, f):
                           "record_write", "object_call_stmt") for o in ops):
             fid = "C03/python-nested-class-header-expression-outside-method"
             return fid if fid in open_ids else None
+    if kind in ("bundle-unreadable", "bundle-not-written") and f["lang"] == "smali" and \
+            "Conversion failed for column init " in f.get("msg", ""):
+        fid = "C03/smali-annotation-init-mixed-column-loses-bundle"
+        return fid if fid in open_ids else None
     if kind in ("crash", "exit"):
         for x in ctx_findings:
             if x.get("status", "open") != "open" or "site" not in x:
@@ -643,11 +782,14 @@ def judge_results(results, P, cov):
                                  "msg": r["msg"], "cid": r["cid"]})
         if r.get("bundle") is None:
             if r["status"] == "ok":
-                failures.append({"kind": "bundle-unreadable", "lang": lang, "msg": r.get("bundle_err") or r.get("bundle_oof"), "cid": r["cid"]})
+                failures.append({"kind": "bundle-unreadable", "lang": lang, "cid": r["cid"],
+                                 "msg": f"frontend/gir.bundle* cannot be read back ({r.get('bundle_err') or r.get('bundle_oof')}); DataModel.save "
+                                        f"failed for {r['save_fail']} and only printed: {' '.join(r.get('stdout', '').split())[-300:]}"})
             continue
         if r["status"] == "ok":
             if r["save_fail"]:
-                failures.append({"kind": "bundle-not-written", "lang": lang, "msg": f"DataModel.save failed for {r['save_fail']}", "cid": r["cid"]})
+                failures.append({"kind": "bundle-not-written", "lang": lang, "cid": r["cid"],
+                                 "msg": f"DataModel.save failed for {r['save_fail']} and only printed: {' '.join(r.get('stdout', '').split())[-300:]}"})
             want = sorted(u["uid"] for u in r["units"] if u.get("has_rows"))
             got = sorted(uid for uid, _ in r["bundle"])
             if want != got and not r["save_fail"]:
@@ -660,16 +802,31 @@ def judge_results(results, P, cov):
             wf_reqs.append((r, units))
             cov["units_checked"] += len(units)
             cov["rows_checked"] += sum(len(u) for u in units)
+        for u in r["units"]:
+            if u.get("raised_where") == "passes":
+                if u["raised"] == "RecursionError":
+                    cov["pass_recursion_limit"] += 1          # interpreter resource limit, outside the model: file skipped
+                else:
+                    failures.append({"kind": "pass-exception", "lang": lang, "exc": u["raised"], "site": ["passes", ""],
+                                     "msg": "exception in the GIR passes (event handlers / flatten / add_main_func): " + u.get("raised_msg", ""),
+                                     "cid": r["cid"], "path": u["path"]})
+            elif u.get("raised_where") == "frontend":
+                cov["frontend_raised"][f"{lang}:{u['raised']}"] += 1
         if r["status"] == "ok" and r["units"]:
-            if all(u["flat"] is None or u["flat"].get("tree") is not None for u in r["units"]):
+            if all(u["flat"] is None or u["flat"].get("tree") is not None or u.get("raised") for u in r["units"]):
                 run_reqs.append(r)
             else:
                 cov["model_out_of_fragment"] += 1
     return failures, wf_reqs, run_reqs
 
 
-def shrink_source(case, sig, budget=120):
-    """line-wise then chunk-wise delta debugging of a single-file failing case, in-process."""
+def shrink_source(case, sig, budget=120, path=None):
+    """line-wise then chunk-wise delta debugging of a failing case, in-process (files first)."""
+    if path and len(case["files"]) > 1:
+        only = [f for f in case["files"] if os.path.basename(f[0]) == path]
+        if only and sig in {failure_signature(f) for f in failures_of_case(dict(case, files=only))}:
+            case = dict(case, files=only)
+        budget -= 1
     if len(case["files"]) != 1:
         # first try to drop whole files
         files = list(case["files"])
@@ -716,13 +873,16 @@ def failures_of_case(case):
     os.makedirs(_SCRATCH[0], exist_ok=True)
     r = run_case(case)
     cov = {"status": collections.Counter(), "by_lang": collections.defaultdict(collections.Counter),
-           "crash_sites": collections.Counter(), "units_checked": 0, "rows_checked": 0, "model_out_of_fragment": 0}
+           "crash_sites": collections.Counter(), "units_checked": 0, "rows_checked": 0, "model_out_of_fragment": 0,
+           "frontend_raised_units": 0, "pass_recursion_limit": 0, "frontend_raised": collections.Counter()}
     failures, wf_reqs, _ = judge_results([r], P, cov)
     for rr, units in wf_reqs:
-        for u in units:
+        paths = {u["uid"]: u["path"] for u in rr["units"]}
+        for ui, u in enumerate(units):
             cl, det = oracle_unit(u, P)
             if cl:
-                failures.append({"kind": "illformed", "lang": rr["lang"], "clauses": cl, "detail": det, "cid": rr["cid"]})
+                failures.append({"kind": "illformed", "lang": rr["lang"], "clauses": cl, "detail": det, "cid": rr["cid"],
+                                 "path": paths.get(rr["bundle"][ui][0])})
         if not oracle_ranges(units):
             failures.append({"kind": "illformed", "lang": rr["lang"], "clauses": ["ranges_disjoint"], "detail": {}, "cid": rr["cid"]})
     return failures
@@ -730,7 +890,8 @@ def failures_of_case(case):
 
 def case_to_json(case):
     return {"cid": case["cid"], "lang": case["lang"], "timeout": case.get("timeout", 20),
-            "files": [[n, d.decode("latin-1")] for n, d in case["files"]], "encoding": "latin-1 (bytes preserved)"}
+            "files": [[n, d.decode("latin-1")] for n, d in case["files"]], "encoding": "latin-1 (bytes preserved)",
+            "origins": {n: case.get("origins", {}).get(os.path.basename(n)) for n, _ in case["files"]}}
 
 
 def case_from_json(j):
@@ -878,9 +1039,9 @@ def corrupt_rows(rng, rows):
 def tie_b(ctx, P):
     import multiprocessing as mp
     tier = ctx.tier
-    sizes = ({"corpus": None, "real": 10, "generated": 10, "mutants": 70, "projects": 3, "project_files": 12, "timeout": 10}
+    sizes = ({"corpus_frac": 0.6, "real": 8, "generated": 10, "mutants": 90, "pack": 25, "timeout": 15}
              if tier == "quick" else
-             {"corpus": None, "real": 100, "generated": 150, "mutants": 1000, "projects": 30, "project_files": 40, "timeout": 30})
+             {"corpus_frac": 1.0, "real": 100, "generated": 150, "mutants": 1500, "pack": 25, "timeout": 40})
     cases, cstats = build_cases(ctx, sizes)
     cdir = os.path.join(common.VERIF, "corpus", "C03")
     corpus_cases = []
@@ -904,7 +1065,7 @@ def tie_b(ctx, P):
     by_cid = {c["cid"]: c for c in cases}
     cov = {"status": collections.Counter(), "by_lang": collections.defaultdict(collections.Counter),
            "crash_sites": collections.Counter(), "units_checked": 0, "rows_checked": 0, "model_out_of_fragment": 0,
-           "frontend_raised_units": 0}
+           "frontend_raised_units": 0, "pass_recursion_limit": 0, "frontend_raised": collections.Counter()}
     failures, wf_reqs, run_reqs = judge_results(results, P, cov)
     # ---- certified checker on the REAL rows (+ independent oracle, + real consumers)
     lean = chunked([{"m": "wfcheck", "units": units, "params": P} for _, units in wf_reqs], 300)
@@ -917,11 +1078,13 @@ def tie_b(ctx, P):
         o_ranges = oracle_ranges(units)
         if [c for c, _ in o_units] != lv["units"] or o_ranges != lv["ranges"]:
             disagreements.append({"cid": r["cid"], "lean": lv, "oracle": [c for c, _ in o_units], "oracle_ranges": o_ranges})
+        paths = {u["uid"]: u["path"] for u in r["units"]}
         for ui, (u, (cl, det)) in enumerate(zip(units, o_units)):
             ctx.cov["evaluations"] += 1
             if lv["units"][ui] or cl:
                 cls = sorted(set(cl) | set(lv["units"][ui]), key=CLAUSES.index)
-                failures.append({"kind": "illformed", "lang": r["lang"], "clauses": cls, "detail": det, "cid": r["cid"]})
+                failures.append({"kind": "illformed", "lang": r["lang"], "clauses": cls, "detail": det, "cid": r["cid"],
+                                 "path": paths.get(r["bundle"][ui][0])})
                 for c in cls:
                     clause_hits[c] += 1
             else:
@@ -967,7 +1130,7 @@ def tie_b(ctx, P):
     # ---- model langRun on the captured trees must reproduce the bundle
     reqs = []
     for r in run_reqs:
-        us = [[u["uid"], ({"raised": u["raised"]} if u.get("raised") and not u["flat"] else
+        us = [[u["uid"], ({"raised": u["raised"]} if u.get("raised") and not u.get("has_rows") else
                           (u["flat"]["tree"] if u["flat"] else None))] for u in r["units"]]
         cov["frontend_raised_units"] += sum(1 for u in r["units"] if u.get("raised"))
         reqs.append({"m": "flatten", "op": "run", "start": r["units"][0]["n"], "units": us, "params": P})
@@ -1002,6 +1165,22 @@ def tie_b(ctx, P):
             mrows = next((x[1] for x in m["units"] if x[0] == uid), [])
             if [w["id"] for w in rows] != [w["id"] for w in mrows] and real.get(uid) == mod.get(uid):
                 corr.append({"cid": r["cid"], "what": "row order differs", "unit": uid})
+    # ---- handler coverage of the frontends' dispatch tables (measured: successful look-ups during this run)
+    hits, seen = collections.defaultdict(set), collections.defaultdict(set)
+    for r in results:
+        hits[r["lang"]].update(r.get("hits", []))
+        seen[r["lang"]].update(r.get("seen", []))
+    handlers, uncovered = {}, {}
+    for lang in sorted(LANGS):
+        tabs = handler_universe(lang)
+        uni = set().union(*tabs.values()) if tabs else set()
+        lit = set().union(*[set(v) for k, v in tabs.items() if "LITERAL" in k.upper()]) if tabs else set()
+        covered = (uni & hits[lang]) | (lit & seen[lang])
+        handlers[lang] = {"tables": {k: len(v) for k, v in tabs.items()}, "handler_node_types": len(uni),
+                          "dispatched_or_seen_literal": len(covered), "node_types_seen_in_inputs": len(seen[lang])}
+        uncovered[lang] = sorted(uni - covered)
+    ctx.cov["handlers"] = handlers
+    ctx.cov["uncovered"] = uncovered
     ndist = len({hashlib.sha1(json.dumps(u, sort_keys=True).encode()).hexdigest() for u in wf_units if len(u) > 3})
     ctx.cov["distinct_nontrivial"] += ndist
     ctx.cov["tie_b"] = {"cases": dict(cstats), "witness_cases": len(corpus_cases), "status": dict(cov["status"]),
@@ -1013,6 +1192,8 @@ def tie_b(ctx, P):
                                      "outside_samples": frag_samples},
                         "model_differences": len(corr), "checker_vs_oracle_disagreements": len(disagreements),
                         "frontend_raised_units_skipped": cov["frontend_raised_units"],
+                        "frontend_raised_by_class": dict(cov["frontend_raised"]),
+                        "units_skipped_by_recursion_limit_in_passes": cov["pass_recursion_limit"],
                         "corrupted_tables": dict(rejected), "consumer_failures": consumer_fail,
                         "consumer_model_compared": len(ctabs), "consumer_model_differences": len(corr_c),
                         "consumer_outcomes": dict(cstats),
@@ -1072,7 +1253,7 @@ def _run(ctx):
         fid = match_known(ctx.findings, f)
         if fid:
             for _ in fs:
-                ctx.known(fid, f.get("msg") or f"{f['lang']}: clauses {f.get('clauses')} fail on {f['cid']}")
+                ctx.known(fid, f.get("msg") or f"{f['lang']}: clauses {f.get('clauses')} fail on {f['cid']}:{f.get('path')}")
         else:
             unknown.append((sig, fs))
     for sig, fs in unknown[:6]:
@@ -1080,8 +1261,9 @@ def _run(ctx):
         case = by_cid.get(f["cid"])
         small = case
         try:
-            if case is not None and f["kind"] in ("crash", "exit", "illformed"):
-                small = shrink_source(case, sig, budget=100 if ctx.tier == "quick" else 400)
+            if case is not None and f["kind"] in ("crash", "exit", "illformed", "pass-exception", "bundle-unreadable",
+                                                  "bundle-not-written", "units-missing"):
+                small = shrink_source(case, sig, budget=100 if ctx.tier == "quick" else 400, path=f.get("path"))
         except Exception:
             small = case
         ctx.violation({"kind": "source", "what": f.get("msg") or f"real GIR rows fail {f.get('clauses')}",
